@@ -208,6 +208,22 @@ def gen_cases(tier, seed):
                 for sign in (1, -1):
                     add({"op": "one", "api": rng.choice(["gu", "gund", "mktrend", "yxt"]), "dtype": rng.choice(["int16", "float32"]), "xi": [sign * t for t in xs_], "ndv": -9999.0, "f32": True, "family": "threshold"})
                 made += 1
+    # neighbouring representable numbers: observations one unit in the last place apart are strictly ordered, not tied
+    k = 0
+    for n in (8, 12, 20):
+        for base, dt in ((1.0e7, "float32"), (2048.0, "float32"), (0.1, "float32"), (1.0e16, "float64"), (3.0, "float64")):
+            ft = np.dtype(dt).type
+            chain = [ft(base)]
+            for _ in range(n - 1):
+                chain.append(np.nextafter(chain[-1], ft(np.inf)))
+            xs_ = [float(v) for v in chain]
+            for j in rng.sample(range(n - 1), max(1, n // 5)):      # a few adjacent swaps and one exact tie
+                xs_[j], xs_[j + 1] = xs_[j + 1], xs_[j]
+            xs_[rng.randrange(n)] = xs_[0]
+            apis = ["gund", "mktrend", "yxt", "gu"] if dt == "float32" else ["1d"]
+            for sign in (1, -1):
+                add({"op": "one", "api": apis[k % len(apis)], "dtype": dt, "xi": [sign * t for t in xs_], "ndv": -9999.0, "f32": dt == "float32", "family": "ulp"})
+                k += 1
     for n in (1, 2, 5, 30):
         for api, dtype in (("gund", "int16"), ("gund", "float32"), ("mktrend_nd", "int16")):
             add({"op": "allnodata", "api": api, "dtype": dtype, "xi": [-9999] * n, "ndv": -9999.0})
